@@ -363,7 +363,7 @@ def confirm(v, P):
             X, sc = mdl['X'], mdl['scale']
             if X % 10:
                 return False, 'step model is not a reachable state (X not a multiple of ten)'
-            x, s0 = X // 10, sc
+            x, s0 = X // 10, 0        # the scale only shifts the result; the model's value is arbitrary
         else:
             x, s0 = mdl['x'], mdl['s0']
         line = 'binop\tDiv\tBigDecimal\tBigDecimal\t%s\t%s' % (H.dec_str(x, s0), H.dec_str(den, 0))
